@@ -5,3 +5,4 @@ import ForsysModel.Props.C20
 import ForsysModel.Props.C18
 import ForsysModel.Props.C19
 import ForsysModel.Props.C14
+import ForsysModel.Props.C17
